@@ -262,6 +262,9 @@ def split_top(s):
     return out
 
 
+R21_BOUND = re.compile(r"\b(\w+)\s*:\s*FnMut\(\s*&\s*(\w+)\s*,\s*&\s*(\w+)\s*\)\s*->\s*(\w+)")
+
+
 class Renderer:
     """Re-emits one function from its source text with rewrites and anchor insertions."""
 
@@ -280,6 +283,13 @@ class Renderer:
             self.rw.setdefault(d[0], []).append(d[1:])
         self.synth_loops = 0
         self.r19_flags = {}      # span start of `let [mut] L = V.into_iter();` -> (L, V), where a blind retain2 closure drains L
+        # R21: parameters whose type is a type parameter bound by `FnMut(&A, &B) -> R` (shared-reference arguments only)
+        self.r21 = {}
+        sigtxt = self.src.t(*fn.node["sig_span"])
+        for mm in R21_BOUND.finditer(sigtxt):
+            for inp in fn.node["inputs"]:
+                if not inp.get("receiver") and inp.get("name") and compact(inp.get("ty_text", "")) == mm.group(1):
+                    self.r21[inp["name"]] = (mm.group(2), mm.group(3), mm.group(4))
         self.r19_of = {}         # L -> ghost name
         for x in walk_tree(fn.node["tree"]):
             if x["k"] == "MethodCall" and x["method"] == "retain2" and len(x["args"]) == 1:
@@ -762,6 +772,23 @@ class Renderer:
             if pats == ["_", "_"] and mm:
                 self.log.append("R19 retain2(closure ignoring the entries, draining recorded answers) -> __retain2_blind()")
                 return "%s.__retain2_blind()" % self.render(recv)
+        # R21: X.m(|a, b| F(&*a, &*b)) with F an `FnMut(&A, &B) -> R` parameter: the adapter closure is bound to a name in front
+        # of the statement, typed, captures F by shared reference, and states what its one-line body does (Verus verifies the
+        # body against that clause): its result is F's on the same values, and it writes nothing
+        if len(args) == 1 and args[0]["k"] == "Closure" and not self.plain and self.r21:
+            c = args[0]
+            pats = [compact(i["text"]) for i in c["inputs"]]
+            body = compact(self.t(*c["body"]))
+            mm = re.match(r"^(\w+)\(&\*(\w+),&\*(\w+)\)$", body) or re.match(r"^(\w+)\((\w+),(\w+)\)$", body)
+            if mm and mm.group(1) in self.r21 and pats == [mm.group(2), mm.group(3)] and pats[0] != pats[1]:
+                A, B, R = self.r21[mm.group(1)]
+                a, b = pats
+                self.hoist.append("let __pr21 = &%s;\nlet __cl21 = |%s: &mut %s, %s: &mut %s| -> (__r: %s)\n"
+                                  "    ensures (*__pr21).ensures((&*old(%s), &*old(%s)), __r), *final(%s) == *old(%s), *final(%s) == *old(%s),\n"
+                                  "    { (*__pr21)(&*%s, &*%s) };\nlet ghost __g21 = __cl21;\n"
+                                  % (mm.group(1), a, A, b, B, R, a, b, a, a, b, b, a, b))
+                self.log.append("R21 adapter closure |a, b| F(&*a, &*b) bound to a name, typed, with the clause its body is verified against")
+                return "%s.%s(__cl21)" % (self.render(recv), m)
         # R12: size_hint of a generic iterator
         if m == "size_hint" and not args and self.rw.get("size_hint_stub"):
             self.log.append("R12 .size_hint() -> __size_hint(&..)")
@@ -977,6 +1004,14 @@ class Renderer:
             after_ret = node["paren"][1]
         where = self.subst_assoc(self.t(after_ret, sig_b))      # `Self::Item` in a where clause of a trait method made inherent
         params = self.subst_assoc(params)
+        if R21_BOUND.search(head) or R21_BOUND.search(where):
+            # R21: a bound `FnMut(&A, &B) -> R` is written `Fn(&A, &B) -> R`.  Verus does not track a closure's own state (it
+            # models every closure as a fixed relation between arguments and result), so nothing it checks is dropped; what
+            # it gains is that an adapter closure `|a, b| f(&*a, &*b)` can capture `f` by shared reference (capturing by mutable
+            # reference is outside Verus' closure support)
+            head = R21_BOUND.sub(lambda m: m.group(0).replace("FnMut(", "Fn("), head)
+            where = R21_BOUND.sub(lambda m: m.group(0).replace("FnMut(", "Fn("), where)
+            self.log.append("R21 bound FnMut(&A, &B) -> R written Fn(&A, &B) -> R (closure state is not tracked by Verus)")
         if self.moved_where:
             mw = self.moved_where.strip()
             where = (" " + mw) if not where.strip() else where.rstrip().rstrip(",") + ", " + re.sub(r"^where\s*", "", mw)
